@@ -22,7 +22,7 @@ import numpy as np
 import common
 import proofs
 
-FILES = ["Model_npz.v", "Proofs_npz.v", "Entry_npz.v", "Extract_npz.v"]
+FILES = ["Model_npz.v", "Proofs_npz.v", "Proofs_npz_sizes.v", "gen/Gen_tables_npz.v", "Inst_npz.v", "Entry_npz.v", "Extract_npz.v"]
 PROP = "Properties/C17.v"
 GROUP = "npz"
 
@@ -135,13 +135,60 @@ def corrupt_kinds():
     return ["counts_more_fractions", "counts_more_orientations", "first_fraction_size", "first_orientation_size",
             "both_first_sizes_equal_but_not_n", "ragged_fraction", "ragged_orientation", "ragged_orientation_trailing",
             "no_snapshots", "zero_dim_first", "phase_overflow", "regime_negative", "overflow_and_ragged",
-            "all_orientations_other_size", "all_fractions_other_size"]
+            "all_orientations_other_size", "all_fractions_other_size",
+            # every shape fault per snapshot index, single / several / with COMPENSATING totals (added after seeded change C17e:
+            # the explicit test looks at snapshot 0 only; the later snapshots are rejected by np.stack alone)
+            "last_fraction_size", "last_orientation_size", "middle_fraction_size", "middle_orientation_size",
+            "two_fractions_same_direction", "compensating_fractions", "compensating_orientations", "compensating_both",
+            "compensating_both_opposite", "compensating_three_snapshots", "compensating_fractions_last_two",
+            "orientation_block_flat", "orientation_block_2d", "orientation_block_n_by_9", "fraction_column_vector",
+            "orientation_trailing_transposed_total_kept"]
 
 
 def corrupt(rng, kind):
     n, k = int(rng.integers(2, 7)), int(rng.integers(2, 5))
+    if kind.startswith(("compensating", "middle_", "two_fractions")) or kind in ("last_fraction_size", "last_orientation_size"):
+        k = int(rng.integers(4 if kind == "compensating_three_snapshots" else 3, 7))
     M = mk(rng, n, k)
     j = int(rng.integers(1, k))
+    if k >= 3:
+        a, b = sorted(int(x) for x in rng.choice(np.arange(1, k), size=2, replace=False))     # two later snapshots
+    if kind == "last_fraction_size":
+        M["fractions"][k - 1] = payload(rng, (n + 1,))
+    elif kind == "last_orientation_size":
+        M["orientations"][k - 1] = payload(rng, (n - 1, 3, 3))
+    elif kind == "middle_fraction_size":
+        M["fractions"][int(rng.integers(1, k - 1))] = payload(rng, (n - 1,))
+    elif kind == "middle_orientation_size":
+        M["orientations"][int(rng.integers(1, k - 1))] = payload(rng, (n + 1, 3, 3))
+    elif kind == "two_fractions_same_direction":
+        M["fractions"][a], M["fractions"][b] = payload(rng, (n + 1,)), payload(rng, (n + 1,))
+    elif kind == "compensating_fractions":          # total number of elements = k * n
+        M["fractions"][a], M["fractions"][b] = payload(rng, (n - 1,)), payload(rng, (n + 1,))
+    elif kind == "compensating_orientations":
+        M["orientations"][a], M["orientations"][b] = payload(rng, (n + 1, 3, 3)), payload(rng, (n - 1, 3, 3))
+    elif kind == "compensating_both":
+        M["fractions"][a], M["fractions"][b] = payload(rng, (n - 1,)), payload(rng, (n + 1,))
+        M["orientations"][a], M["orientations"][b] = payload(rng, (n - 1, 3, 3)), payload(rng, (n + 1, 3, 3))
+    elif kind == "compensating_both_opposite":
+        M["fractions"][a], M["fractions"][b] = payload(rng, (n - 1,)), payload(rng, (n + 1,))
+        M["orientations"][a], M["orientations"][b] = payload(rng, (n + 1, 3, 3)), payload(rng, (n - 1, 3, 3))
+    elif kind == "compensating_three_snapshots":
+        M["fractions"][1], M["fractions"][2], M["fractions"][3] = payload(rng, (n + 2,)), payload(rng, (n - 1,)), payload(rng, (n - 1,))
+        M["orientations"][1], M["orientations"][2], M["orientations"][3] = (payload(rng, (n + 2, 3, 3)), payload(rng, (n - 1, 3, 3)),
+                                                                            payload(rng, (n - 1, 3, 3)))
+    elif kind == "compensating_fractions_last_two":
+        M["fractions"][k - 2], M["fractions"][k - 1] = payload(rng, (n + 1,)), payload(rng, (n - 1,))
+    elif kind == "orientation_block_flat":
+        M["orientations"][j] = payload(rng, (n * 9,))
+    elif kind == "orientation_block_2d":
+        M["orientations"][j] = payload(rng, (n * 3, 3))
+    elif kind == "orientation_block_n_by_9":
+        M["orientations"][j] = payload(rng, (n, 9))
+    elif kind == "fraction_column_vector":
+        M["fractions"][j] = payload(rng, (n, 1))
+    elif kind == "orientation_trailing_transposed_total_kept":
+        M["orientations"][j] = payload(rng, (n, 1, 9))
     if kind == "counts_more_fractions":
         M["fractions"].append(payload(rng, (n,)))
     elif kind == "counts_more_orientations":
@@ -649,7 +696,7 @@ def brief(sc):
 
 # --------------------------------------------------------------------------
 def run(chk):
-    ok, br = proofs.prove(chk, FILES, PROP, groups=(GROUP,), gen_modules=())
+    ok, br = proofs.prove(chk, FILES, PROP, groups=(GROUP,), gen_modules=("npz",))
     import pydrex as pyd
     quiet()
     chk.cov["trusted_base"] = [common.TRUSTED_COMMON[0], common.TRUSTED_COMMON[2]] + [
